@@ -124,11 +124,9 @@ impl Optimizer for Adam {
                 params[p] = params[p] - self.stepsize * mhat / (vhat.sqrt() + self.epsilon);
             }
 
-            if crate::statistics::max(
-                &(0..param_len)
-                    .map(|i| rel_change(params[i].val(), prev_params[i].val()))
-                    .collect::<Vec<_>>(),
-            ) < f64::EPSILON
+            // a NaN change (a parameter that became NaN or infinite) is not convergence
+            if (0..param_len)
+                .all(|i| rel_change(params[i].val(), prev_params[i].val()) < f64::EPSILON)
             {
                 converged = true;
             }
